@@ -445,7 +445,8 @@ def corpus():
     short = dname(b"a", b"bc")
     D("dns-q-short", [(short, 1, 1)], namekeys="counts")
     D("dns-ptr-self", [(b"\xc0\x0c", 1, 1)])
-    D("dns-ptr-cycle", [(b"\x01a\xc0\x12", 1, 1), (b"\x01b\xc0\x0c", 1, 1)])
+    D("dns-ptr-mid", [(b"\x01a\xc0\x12", 1, 1), (b"\x01b\xc0\x0c", 1, 1)])          # pointers into the middle of other names: terminates
+    D("dns-ptr-cycle", [(b"\xc0\x12", 1, 1), (b"\xc0\x0c", 1, 1)])                    # 12 -> 18 -> 12: a genuine two-pointer loop
     D("dns-ptr-fwd", [(b"\xc0\x12", 1, 1), (short, 28, 1)])
     D("dns-ptr-chain", [(short, 1, 1)] + [(bytes([0xc0, 12 if i == 0 else 22 + 6 * (i - 1)]), 1, 1) for i in range(8)], namekeys="none")
     D("dns-label-bits", [(b"\x41" + b"x" * 65 + b"\x00", 1, 1)])
